@@ -156,9 +156,9 @@ def gz(harness, picks, params, labels, covers=(), pkg=GZIP, tiers=("quick", "tho
 
 
 GZ_WRITE = [gz("VerifGzWrite", {"level": lv, "ops": ops, "extra": ex}, {"NAME": nm, "COMMENT": cm, "EXTRA": 1, "P": p}, ["C06:"], ["written"])
-            for (lv, ops, ex, nm, cm, p) in [(0, 0, 1, 1, 1, 2), (0, 1, 0, 2, 0, 2), (0, 2, 0, 0, 1, 0), (0, 3, 1, 1, 0, 2), (1, 1, 0, 1, 1, 4), (2, 0, 1, 0, 0, 4), (3, 1, 0, 1, 0, 4)]]
+            for (lv, ops, ex, nm, cm, p) in [(0, 0, 1, 1, 1, 2), (0, 1, 0, 2, 0, 2), (0, 2, 0, 0, 1, 0), (0, 3, 1, 1, 0, 2), (1, 1, 0, 1, 1, 4), (2, 0, 1, 0, 0, 4), (3, 1, 0, 1, 0, 4), (0, 4, 0, 1, 0, 4), (1, 5, 1, 0, 1, 4), (3, 4, 0, 0, 0, 4)]]
 ZL_WRITE = [gz("VerifZlWrite", {"level": lv, "dict": d, "ops": ops}, {"P": p}, ["C06:"], ["written"], pkg=ZLIB)
-            for (lv, d, ops, p) in [(0, 0, 1, 2), (0, 1, 0, 2), (1, 0, 1, 4), (2, 0, 0, 4), (3, 1, 3, 4), (4, 0, 2, 0), (5, 0, 1, 4), (5, 1, 0, 4)]]
+            for (lv, d, ops, p) in [(0, 0, 1, 2), (0, 1, 0, 2), (1, 0, 1, 4), (2, 0, 0, 4), (3, 1, 3, 4), (4, 0, 2, 0), (5, 0, 1, 4), (5, 1, 0, 4), (0, 0, 4, 4), (1, 0, 5, 4), (2, 1, 4, 4), (5, 0, 4, 4)]]
 
 CHECKS.update({
     "C06": {"level": "model_checking",
